@@ -87,7 +87,7 @@ def sub_specs():
 @st.composite
 def case_multivalue(draw):
     return {'frame': draw(frame()), 'features': draw(st.sampled_from(['mv0', 'mv1', 'mv0;mv1', 'mv1;mv0', 'a'])),
-            'missing': draw(st.sampled_from(MISSING_SETS))}
+            'missing': draw(st.sampled_from(MISSING_SETS)), 'earlier': draw(st.sampled_from([0, 0, 1, 3]))}
 
 
 @st.composite
@@ -96,7 +96,7 @@ def case_sub(draw):
     mapping = draw(sub_specs())
     if (max(len(set(fr['cols'][c])) for c in ('a', 'b')) > 10 or 'uANDv' in fr['cols']['a'] or 'uAND' in fr['cols']['a']) and draw(st.booleans()):
         mapping = draw(st.sampled_from(['a<->b', 'b<->a', 'a<->b;c->a']))      # > 128 (first, second) value combinations / confusable joins
-    return {'frame': fr, 'mapping': mapping}
+    return {'frame': fr, 'mapping': mapping, 'earlier': draw(st.sampled_from([0, 0, 1, 3]))}
 
 
 @st.composite
@@ -247,10 +247,23 @@ def _nt_frame(fr):
     return any(len(tokens_of(x)) >= 2 for x in fr['cols']['mv0'] + fr['cols']['mv1'])
 
 
+def _earlier_batch(df, seed):
+    """An earlier mini-batch of the same columns with other contents (rows reversed, values rotated between rows): constructing its
+    features first must leave no trace in what is built for the batch under test."""
+    prev = df.iloc[::-1].reset_index(drop=True).copy()
+    for j, c in enumerate(prev.columns):
+        k = (seed + j) % max(1, len(prev))
+        prev[c] = prev[c].tolist()[k:] + prev[c].tolist()[:k]
+    return prev
+
+
 def oracle_multivalue(case, rec):
     df = to_df(case['frame'])
     before = df.copy(deep=True)
     args = stubs.make_args(explode_multivalue_features=case['features'], missing_value_symbols=case['missing'])
+    if case.get('earlier'):
+        cr.compute_expanded_multivalue_features(_earlier_batch(df, int(case['earlier'])), None, args, stubs.PBar())
+        rec.cls('after-an-earlier-batch')
     out = cr.compute_expanded_multivalue_features(df, None, args, stubs.PBar())
     rec.nt(_nt_frame(case['frame']), key=case)
     if not df.equals(before):
@@ -263,6 +276,9 @@ def oracle_sub(case, rec):
     df = to_df(case['frame'])
     before = df.copy(deep=True)
     args = stubs.make_args(subfeature_mapping=case['mapping'])
+    if case.get('earlier'):
+        cr.compute_subfeatures(_earlier_batch(df, int(case['earlier'])), None, args, stubs.PBar())
+        rec.cls('after-an-earlier-batch')
     out = cr.compute_subfeatures(df, None, args, stubs.PBar())
     sel = [spec.split('->')[-1] for spec in case['mapping'].split(';')]
     rec.nt(any(len(set(case['frame']['cols'][s])) >= 2 for s in sel), key=case)
